@@ -564,8 +564,8 @@ BOUNDS = {
                   islice_params=(None, -2, -1, 0, 1, 2, 3, 4, 5, 6, 7), Lislice=2, Lislice_distinct=6, chain_n=2, chain_L=2,
                   zip_n=2, zip_L=2, prod_n=2, prod_L=2, prod_rep=(-1, 0, 1, 2, 3), star_n=2, star_L=2,
                   cycle_L=3, cycle_k=7, count_k=4, Lacc=4),
-    "thorough": dict(L=6, Lpred=6, params=(-2, -1, 0, 1, 2, 3, 4, 5, 6, 7), Lcomb=5, Lcompress=4,
-                     islice_params=(None, -2, -1, 0, 1, 2, 3, 4, 5, 6, 7), Lislice=3, Lislice_distinct=7,
+    "thorough": dict(L=6, Lpred=7, params=(-2, -1, 0, 1, 2, 3, 4, 5, 6, 7), Lcomb=5, Lcompress=4,
+                     islice_params=(None, -2, -1, 0, 1, 2, 3, 4, 5, 6, 7), Lislice=4, Lislice_distinct=7,
                      chain_n=3, chain_L=2, zip_n=3, zip_L=2, prod_n=2, prod_L=2, prod_rep=(-2, -1, 0, 1, 2, 3),
                      star_n=3, star_L=2, cycle_L=4, cycle_k=10, count_k=5, Lacc=6),
 }
@@ -1062,7 +1062,7 @@ def check(tier: str) -> int:
     rng = random.Random(core.seed())
     corpus, corpus_tees = corpus_cases()
     ex = exhaustive_cases(tier)
-    rnd = random_cases(rng, 3000 if tier == "quick" else 40000)
+    rnd = random_cases(rng, 3000 if tier == "quick" else 80000)
     rnd_real = random_cases(rng, 1500 if tier == "quick" else 10000)
     for c in rnd_real:
         c.origin = "random-real-checkpoints"
